@@ -60,13 +60,6 @@ Proof.
   - destruct (Z.ltb_spec 0 ttl) as [Hp|Hp]; [|discriminate]. intros Hx; inversion Hx; lia.
 Qed.
 
-Lemma new_expire_cases defttl now ttl :
-  new_expire defttl now ttl = 0 \/ now < new_expire defttl now ttl.
-Proof.
-  unfold new_expire. destruct (eff_ttl defttl ttl) as [x|] eqn:E; [|now left].
-  apply eff_ttl_pos in E. right. lia.
-Qed.
-
 Lemma ksorted_s_load data now : forall acc, ksorted acc -> ksorted (s_load acc data now).
 Proof.
   unfold s_load. induction data as [|[k e] t IH]; intros acc Hs; simpl; auto.
@@ -174,118 +167,120 @@ Section Decl.
 Variable fl : Z -> Z.
 Variable defttl : Z.
 Hypothesis fl_mono : forall x y, x <= y -> fl x <= fl y.
+Hypothesis fl_neg : forall x, x < 0 -> fl x < 0.
 
 Lemma fl_lt_inv x y : fl x < fl y -> x < y.
 Proof. intros H. destruct (Z.lt_ge_cases x y) as [|Hge]; auto. apply fl_mono in Hge. lia. Qed.
 
 Definition hmap := Z -> option entry.
 
+(* a stored deadline d keeps its entry alive at instant t (as far as scores can tell): no deadline, a deadline
+   that wrapped negative, or a deadline whose score is still above the score of t *)
+Definition keeps (t d : Z) : Prop := d <= 0 \/ fl t < fl d.
+
 (* m: the stored map; hc: per key, the entry last stored and not deleted since (time ignored); t0: latest instant *)
 Definition J (m : smap) (hc : hmap) (t0 : Z) : Prop :=
   ksorted m /\
   (forall k e, m_get m k = Some e -> hc k = Some e) /\
-  (forall k v d, hc k = Some (v, d) -> d = 0 \/ fl t0 < fl d -> m_get m k = Some (v, d)) /\
-  (forall k v d, hc k = Some (v, d) -> 0 <= d).
+  (forall k v d, hc k = Some (v, d) -> keeps t0 d -> m_get m k = Some (v, d)).
+
+Lemma keeps_not_expired t d : keeps t d -> expired t d = false.
+Proof.
+  unfold keeps, expired. intros [H|H]; apply andb_false_iff; [left|right]; apply Z.ltb_ge; [lia|].
+  apply fl_lt_inv in H. lia.
+Qed.
+
+Lemma keeps_not_swept t d : keeps t d -> swept fl t d = false.
+Proof.
+  unfold keeps, swept. intros H. destruct (Z.eqb_spec d 0) as [|Hn]; [reflexivity|]. simpl.
+  destruct (Z.leb_spec 0 (fl d)) as [H0|H0]; [|reflexivity]. simpl. apply Z.leb_gt.
+  destruct H as [H|H]; [|exact H]. assert (d < 0) by lia. pose proof (fl_neg d ltac:(lia)). lia.
+Qed.
 
 Lemma J_ext m hc hc' t : (forall k, hc k = hc' k) -> J m hc t -> J m hc' t.
 Proof.
-  intros He (H1 & H2 & H3 & H4). split; [auto|split; [|split]].
+  intros He (H1 & H2 & H3). split; [auto|split].
   - intros k e H. rewrite <- He. auto.
   - intros k v d H. rewrite <- He in H. auto.
-  - intros k v d H. rewrite <- He in H. eauto.
 Qed.
 
 Lemma J_mono m hc t0 t : J m hc t0 -> t0 <= t -> J m hc t.
 Proof.
-  intros (H1 & H2 & H3 & H4) Hle. split; [auto|split; [auto|split; [|auto]]].
-  intros k v d H [Hd|Hd]; apply (H3 k v d H); auto. right. pose proof (fl_mono _ _ Hle). lia.
+  intros (H1 & H2 & H3) Hle. split; [auto|split; [auto|]].
+  intros k v d H [Hd|Hd]; apply (H3 k v d H); [left; auto|right]. pose proof (fl_mono _ _ Hle). lia.
 Qed.
 
-Lemma J_put m hc t k e : J m hc t -> 0 <= snd e ->
-  J (m_put k e m) (fun k' => if k =? k' then Some e else hc k') t.
+Lemma J_put m hc t k e : J m hc t -> J (m_put k e m) (fun k' => if k =? k' then Some e else hc k') t.
 Proof.
-  intros (H1 & H2 & H3 & H4) He. split; [now apply ksorted_put|split; [|split]].
+  intros (H1 & H2 & H3). split; [now apply ksorted_put|split].
   - intros k' e'. rewrite m_get_put. destruct (k =? k'); auto.
   - intros k' v d. rewrite m_get_put. destruct (k =? k'); auto.
-  - intros k' v d. destruct (k =? k'); [|eauto]. intros H; inversion H; subst. exact He.
 Qed.
 
 Lemma J_del m hc t k : J m hc t -> J (m_del k m) (fun k' => if k =? k' then None else hc k') t.
 Proof.
-  intros (H1 & H2 & H3 & H4). split; [now apply ksorted_del|split; [|split]].
+  intros (H1 & H2 & H3). split; [now apply ksorted_del|split].
   - intros k' e'. rewrite m_get_del. destruct (k =? k'); [discriminate|auto].
   - intros k' v d. rewrite m_get_del. destruct (k =? k'); [discriminate|auto].
-  - intros k' v d. destruct (k =? k'); [discriminate|eauto].
 Qed.
 
 (* lazy expiry *)
 Lemma J_expire m hc t k v d : J m hc t -> m_get m k = Some (v, d) -> expired t d = true -> J (m_del k m) hc t.
 Proof.
-  intros (H1 & H2 & H3 & H4) Hg Hex. split; [now apply ksorted_del|split; [|split; [|auto]]].
+  intros (H1 & H2 & H3) Hg Hex. split; [now apply ksorted_del|split].
   - intros k' e'. rewrite m_get_del. destruct (k =? k'); [discriminate|auto].
   - intros k' v' d' Hh Hlive. rewrite m_get_del. destruct (Z.eqb_spec k k') as [E|E]; [|auto].
     subst k'. exfalso. pose proof (H3 k v' d' Hh Hlive) as Hg'. rewrite Hg in Hg'. inversion Hg'; subst v' d'.
-    unfold expired in Hex. apply andb_true_iff in Hex as [E1 E2]. apply Z.ltb_lt in E1, E2.
-    destruct Hlive as [Hl|Hl]; [lia|]. apply fl_lt_inv in Hl. lia.
+    rewrite (keeps_not_expired t d Hlive) in Hex. discriminate.
 Qed.
 
 Lemma J_sweep m hc t : J m hc t -> J (filter (fun p => negb (swept fl t (snd (snd p)))) m) hc t.
 Proof.
-  intros (H1 & H2 & H3 & H4). split; [now apply SSorted_filter|split; [|split; [|auto]]].
+  intros (H1 & H2 & H3). split; [now apply SSorted_filter|split].
   - intros k e. rewrite m_get_filter by exact H1. destruct (m_get m k) as [e'|] eqn:Eg; [|discriminate].
     destruct (negb _); [|discriminate]. intros H; inversion H; subst. auto.
   - intros k v d Hh Hlive. rewrite m_get_filter by exact H1. rewrite (H3 k v d Hh Hlive). simpl.
-    destruct (swept fl t d) eqn:Es; [|reflexivity]. exfalso. unfold swept in Es.
-    apply andb_true_iff in Es as [Es E3]. apply andb_true_iff in Es as [E1 E2].
-    apply negb_true_iff, Z.eqb_neq in E1. apply Z.leb_le in E3. lia.
+    now rewrite (keeps_not_swept t d Hlive).
 Qed.
 
 Lemma J_clear t : J [] (fun _ => None) t.
-Proof. split; [constructor|split; [|split]]; intros; discriminate. Qed.
+Proof. split; [constructor|split]; intros; discriminate. Qed.
 
-Lemma J_restore data t : NoDup (map fst data) -> Forall (fun ke => 0 <= snd (snd ke)) data ->
-  J (s_load [] data t) (fun k => m_get (data_map data) k) t.
+Lemma J_restore data t : NoDup (map fst data) -> J (s_load [] data t) (fun k => m_get (data_map data) k) t.
 Proof.
-  intros Hnd Hpos. split; [apply ksorted_s_load; constructor|split; [|split]].
+  intros Hnd. split; [apply ksorted_s_load; constructor|split].
   - intros k e H. apply get_s_load in H as [H _]; auto. now apply get_data_map.
   - intros k v d H Hlive. apply get_data_map in H; auto. apply get_s_load; auto. split; auto.
-    simpl. unfold expired. destruct Hlive as [->|Hl]; [reflexivity|].
-    apply fl_lt_inv in Hl. apply andb_false_iff. right. apply Z.ltb_ge. lia.
-  - intros k v d H. apply get_data_map in H; auto. rewrite Forall_forall in Hpos. apply (Hpos _ H).
+    simpl. now apply keeps_not_expired.
 Qed.
 
-Lemma J_load m hc (data : list (Z * entry)) t : J m hc t -> NoDup (map fst data) -> Forall (fun ke => 0 <= snd (snd ke)) data ->
+Lemma J_load m hc (data : list (Z * entry)) t : J m hc t -> NoDup (map fst data) ->
   J (s_load m data t)
     (fun k => match m_get (data_map data) k with
               | Some (v, d) => if expired t d then hc k else Some (v, d)
               | None => hc k
               end) t.
 Proof.
-  intros (H1 & H2 & H3 & H4) Hnd Hpos. split; [now apply ksorted_s_load|split; [|split]].
+  intros (H1 & H2 & H3) Hnd. split; [now apply ksorted_s_load|split].
   - intros k e. rewrite get_s_load_gen, get_data_map_eq by exact Hnd.
     destruct (m_get data k) as [[v d]|]; [destruct (expired t d)|]; auto.
   - intros k v d. rewrite get_s_load_gen, get_data_map_eq by exact Hnd.
     destruct (m_get data k) as [[v0 d0]|]; [destruct (expired t d0)|]; auto.
-  - intros k v d. rewrite get_data_map_eq by exact Hnd.
-    destruct (m_get data k) as [[v0 d0]|] eqn:Eg; [destruct (expired t d0)|]; eauto.
-    intros H; inversion H; subst. apply m_get_In in Eg. rewrite Forall_forall in Hpos. apply (Hpos _ Eg).
 Qed.
 
-Lemma J_step m hc t0 now o : J m hc t0 -> t0 <= now -> 0 < now -> op_wf o ->
+Lemma J_step m hc t0 now o : J m hc t0 -> t0 <= now -> op_wf o ->
   J (fst (sstep fl defttl m now o)) (fun k => ls_step defttl k (hc k) (now, o, snd (sstep fl defttl m now o))) now.
 Proof.
-  intros HJ0 Hle Hpos Hwf. pose proof (J_mono _ _ _ _ HJ0 Hle) as HJ. clear HJ0.
-  assert (Hne : forall (v : Z) ttl, 0 <= snd (v, new_expire defttl now ttl)).
-  { intros v ttl. simpl. destruct (new_expire_cases defttl now ttl); lia. }
+  intros HJ0 Hle Hwf. pose proof (J_mono _ _ _ _ HJ0 Hle) as HJ. clear HJ0.
   destruct o as [k v ttl|k v ttl|k v ttl|k|k| | | | |data|data]; simpl.
-  - eapply J_ext; [|apply (J_put _ _ _ k _ HJ (Hne v ttl))]. intros k'; reflexivity.
+  - eapply J_ext; [|apply (J_put _ _ _ k _ HJ)]. intros k'; reflexivity.
   - destruct (m_get m k) eqn:Eg; simpl.
     + eapply J_ext; [|exact HJ]. reflexivity.
-    + eapply J_ext; [|apply (J_put _ _ _ k _ HJ (Hne v ttl))]. intros k'; reflexivity.
+    + eapply J_ext; [|apply (J_put _ _ _ k _ HJ)]. intros k'; reflexivity.
   - destruct (m_get m k) as [[v0 d0]|] eqn:Eg; simpl.
     + destruct (expired now d0) eqn:Ex; simpl.
       * eapply J_ext; [|eapply J_expire; eauto]. reflexivity.
-      * eapply J_ext; [|apply (J_put _ _ _ k _ HJ (Hne v ttl))]. intros k'; reflexivity.
+      * eapply J_ext; [|apply (J_put _ _ _ k _ HJ)]. intros k'; reflexivity.
     + eapply J_ext; [|exact HJ]. reflexivity.
   - eapply J_ext; [|apply (J_del _ _ _ k HJ)]. intros k'; reflexivity.
   - destruct (m_get m k) as [[v0 d0]|] eqn:Eg; simpl.
@@ -297,23 +292,23 @@ Proof.
   - apply J_clear.
   - eapply J_ext; [|apply (J_sweep _ _ _ HJ)]. reflexivity.
   - eapply J_ext; [|exact HJ]. reflexivity.
-  - destruct Hwf as [Hnd Hp]. now apply J_restore.
-  - destruct Hwf as [Hnd Hp]. eapply J_ext; [|apply (J_load _ _ data _ HJ Hnd Hp)]. intros k; reflexivity.
+  - now apply J_restore.
+  - eapply J_ext; [|apply (J_load _ _ data _ HJ Hwf)]. intros k; reflexivity.
 Qed.
 
 Definition last_time (t0 : Z) (tops : list (Z * op)) : Z := fold_left (fun _ x => fst x) tops t0.
 
-Lemma J_run tops : forall m hc t0, J m hc t0 -> times_mono_from t0 tops -> times_pos tops -> ops_wf tops ->
+Lemma J_run tops : forall m hc t0, J m hc t0 -> times_mono_from t0 tops -> ops_wf tops ->
   J (fst (srun fl defttl m tops))
     (fun k => fold_left (ls_step defttl k) (combine tops (snd (srun fl defttl m tops))) (hc k))
     (last_time t0 tops).
 Proof.
-  induction tops as [|[now o] t IH]; intros m hc t0 HJ Hm Hp Hwf; simpl.
+  induction tops as [|[now o] t IH]; intros m hc t0 HJ Hm Hwf; simpl.
   - eapply J_ext; [|exact HJ]. reflexivity.
-  - destruct Hm as [Hle Hm]. inversion Hp as [|? ? Hp1 Hp2]; subst. inversion Hwf as [|? ? Hw1 Hw2]; subst.
-    simpl in Hp1, Hw1. pose proof (J_step m hc t0 now o HJ Hle Hp1 Hw1) as HJ'.
+  - destruct Hm as [Hle Hm]. inversion Hwf as [|? ? Hw1 Hw2]; subst.
+    simpl in Hw1. pose proof (J_step m hc t0 now o HJ Hle Hw1) as HJ'.
     destruct (sstep fl defttl m now o) as [m' r]. simpl in HJ'.
-    specialize (IH m' _ now HJ' Hm Hp2 Hw2).
+    specialize (IH m' _ now HJ' Hm Hw2).
     destruct (srun fl defttl m' t) as [m'' rs]. simpl in *. exact IH.
 Qed.
 
@@ -325,69 +320,53 @@ Proof.
   - rewrite IH. unfold last_time; simpl. tauto.
 Qed.
 
-(* Get returns the entry last stored for the key, never past its deadline; and always returns it while the
-   score of the deadline is still above the score of the current instant (fl now < fl d; for f64r: d > now + g).
-   In the window fl d = fl now <= ... the result depends on whether a sweep has run: see Interval.v. *)
+(* Get returns the entry last stored for the key (the expiry shown is its deadline, or the zero time 0 when the
+   stored deadline is <= 0: none, or wrapped negative), never past its deadline; and always returns it when the
+   stored deadline d is <= 0 or the score of d is still above the score of the current instant.
+   For 0 < d with fl d <= fl now <= ... the result depends on whether a sweep has run: see Interval.v. *)
 Theorem get_live tops now k : times_ok (tops ++ [(now, OGet k)]) -> ops_wf tops ->
   let m := fst (srun fl defttl [] tops) in
   let h := history fl defttl tops in
-  (forall v d, snd (sstep fl defttl m now (OGet k)) = OutGet (Some (v, d)) ->
-               last_stored defttl k h = Some (v, d) /\ (d = 0 \/ now <= d)) /\
-  (forall v d, last_stored defttl k h = Some (v, d) -> (d = 0 \/ fl now < fl d) ->
-               snd (sstep fl defttl m now (OGet k)) = OutGet (Some (v, d))).
+  (forall v sd, snd (sstep fl defttl m now (OGet k)) = OutGet (Some (v, sd)) ->
+     exists d, last_stored defttl k h = Some (v, d) /\ sd = shown d /\ (d <= 0 \/ now <= d)) /\
+  (forall v d, last_stored defttl k h = Some (v, d) -> (d <= 0 \/ fl now < fl d) ->
+               snd (sstep fl defttl m now (OGet k)) = OutGet (Some (v, shown d))).
 Proof.
   intros [Hp Hm] Hwf. cbv zeta.
-  unfold times_pos in Hp. rewrite Forall_app in Hp. destruct Hp as [Hp Hpn].
   apply times_mono_app in Hm as [Hm Hlast].
-  pose proof (J_run tops [] (fun _ => None) 0 (J_clear 0) Hm Hp Hwf) as HJ.
+  pose proof (J_run tops [] (fun _ => None) 0 (J_clear 0) Hm Hwf) as HJ.
   apply J_mono with (t := now) in HJ; [|exact Hlast].
-  destruct HJ as (H1 & H2 & H3 & H4).
+  destruct HJ as (H1 & H2 & H3).
   unfold last_stored, history. simpl. split.
-  - intros v d. destruct (m_get (fst (srun fl defttl [] tops)) k) as [[v0 d0]|] eqn:Eg; [|discriminate].
-    destruct (expired now d0) eqn:Ex; simpl; [discriminate|]. intros H; inversion H; subst v0 d0.
-    pose proof (H2 _ _ Eg) as Hh. split; [exact Hh|].
-    pose proof (H4 _ _ _ Hh) as Hd. unfold expired in Ex. apply andb_false_iff in Ex.
-    destruct Ex as [E|E]; [apply Z.ltb_ge in E|apply Z.ltb_ge in E]; lia.
-  - intros v d Hh Hlive. rewrite (H3 k v d Hh Hlive).
-    assert (Ex : expired now d = false).
-    { unfold expired. destruct Hlive as [->|Hl]; [reflexivity|]. apply fl_lt_inv in Hl.
-      apply andb_false_iff. right. apply Z.ltb_ge. lia. }
-    rewrite Ex. reflexivity.
-Qed.
-
-(* every stored deadline of a reachable state is >= 0 *)
-Lemma reachable_pos tops : times_ok tops -> ops_wf tops ->
-  forall k v d, m_get (fst (srun fl defttl [] tops)) k = Some (v, d) -> 0 <= d.
-Proof.
-  intros [Hp Hm] Hwf k v d Hg.
-  pose proof (J_run tops [] (fun _ => None) 0 (J_clear 0) Hm Hp Hwf) as (H1 & H2 & H3 & H4).
-  eapply H4. eapply H2. exact Hg.
+  - intros v sd. destruct (m_get (fst (srun fl defttl [] tops)) k) as [[v0 d0]|] eqn:Eg; [|discriminate].
+    destruct (expired now d0) eqn:Ex; simpl; [discriminate|]. intros H; inversion H; subst v0 sd.
+    exists d0. split; [exact (H2 _ _ Eg)|split; [reflexivity|]].
+    unfold expired in Ex. apply andb_false_iff in Ex.
+    destruct Ex as [E|E]; apply Z.ltb_ge in E; lia.
+  - intros v d Hh Hlive. rewrite (H3 k v d Hh Hlive). rewrite (keeps_not_expired now d Hlive). reflexivity.
 Qed.
 
 Hypothesis fl_nonneg : forall x, 0 <= x -> 0 <= fl x.
 
-(* Count = stored entries; after a sweep at [now] no stored entry has a collected deadline, and nothing whose
-   deadline scores above [now] (nor any untimed entry) has been removed *)
-Theorem count_sweep tops now : times_ok tops -> ops_wf tops ->
+(* Count = stored entries; after a sweep at [now] every remaining entry has d <= 0 (untimed or wrapped) or
+   now < d, and nothing with d <= 0 or with a deadline scoring above [now] has been removed *)
+Theorem count_sweep tops now : ops_wf tops ->
   let s := fst (mrun fl defttl st0 tops) in
   let s' := m_sweep fl s now in
   snd (mstep fl defttl s now OCount) = OutCount (length (member s)) /\
-  (forall k v d, m_get (member s') k = Some (v, d) -> m_get (member s) k = Some (v, d) /\ (d = 0 \/ fl now < fl d)) /\
-  (forall k v d, m_get (member s) k = Some (v, d) -> d = 0 \/ fl now < fl d -> m_get (member s') k = Some (v, d)).
+  (forall k v d, m_get (member s') k = Some (v, d) -> m_get (member s) k = Some (v, d) /\ (d <= 0 \/ fl now < fl d)) /\
+  (forall k v d, m_get (member s) k = Some (v, d) -> d <= 0 \/ fl now < fl d -> m_get (member s') k = Some (v, d)).
 Proof.
-  intros Ht Hwf. cbv zeta. pose proof (index_inv fl defttl tops Hwf) as HI.
-  pose proof (member_is_spec fl defttl tops Hwf) as Hms.
+  intros Hwf. cbv zeta. pose proof (index_inv fl defttl tops Hwf) as HI.
   split; [reflexivity|split].
   - intros k v d. rewrite (sweep_exact fl _ now k HI).
     destruct (m_get (member (fst (mrun fl defttl st0 tops))) k) as [[v0 d0]|] eqn:Eg; [|discriminate].
     destruct (swept fl now d0) eqn:Es; [discriminate|]. intros H; inversion H; subst v0 d0. split; auto.
-    rewrite Hms in Eg. pose proof (reachable_pos tops Ht Hwf k v d Eg) as Hd.
-    unfold swept in Es. destruct (Z.eqb_spec d 0) as [|Hne]; [now left|]. simpl in Es.
-    pose proof (fl_nonneg d Hd) as Hf. destruct (Z.leb_spec 0 (fl d)); [|lia]. simpl in Es.
-    apply Z.leb_gt in Es. now right.
+    destruct (Z.le_gt_cases d 0) as [Hd|Hd]; [now left|right].
+    unfold swept in Es. destruct (Z.eqb_spec d 0) as [|Hne]; [lia|]. simpl in Es.
+    pose proof (fl_nonneg d ltac:(lia)) as Hf. destruct (Z.leb_spec 0 (fl d)); [|lia]. simpl in Es.
+    now apply Z.leb_gt in Es.
   - intros k v d Hg Hlive. rewrite (sweep_exact fl _ now k HI). rewrite Hg.
-    destruct (swept fl now d) eqn:Es; [|reflexivity]. exfalso. unfold swept in Es.
-    apply andb_true_iff in Es as [Es E3]. apply andb_true_iff in Es as [E1 E2].
-    apply negb_true_iff, Z.eqb_neq in E1. apply Z.leb_le in E3. lia.
+    now rewrite (keeps_not_swept now d Hlive).
 Qed.
 End Decl.
